@@ -1,8 +1,8 @@
 (** C11 — statements about the algorithm model (Kkt/Model.v).  Statements only; proofs in
     Kkt/Lemmas*.v.  (Statements about the intended layout alone are in Kkt/Spec.v.) *)
-From Coq Require Import List Arith ZArith Lia Bool.
+From Coq Require Import List Arith ZArith Lia Bool Reals.
 Import ListNotations.
-Require Import Clarabel.Base.Ops Clarabel.Csc.Model Clarabel.Kkt.Spec Clarabel.Kkt.Model.
+Require Import Clarabel.Base.Ops Clarabel.Csc.Model Clarabel.Csc.Spec Clarabel.Kkt.Spec Clarabel.Kkt.Model.
 
 (** ** _fill_signs produces the intended sign pattern
     (+1)^n (-1)^m, then (-1,+1) per SOC expansion and (-1,-1,+1) per GenPow expansion, whenever
@@ -216,3 +216,112 @@ Definition stmt_assemble_refines_spec : Prop :=
   forall T (O : Ops T) (P A : @csc T) (shapes : list shape) (tri : triangle), wf_input P A shapes ->
     assemble O (encode P) (encode A) shapes tri
     = (encode (kkt_matrix O P A shapes tri), kkt_maps P A shapes tri).
+
+(** ** kkt_spec_dense: the dense meaning of the intended matrix *)
+(** the intended matrix with arbitrary values on the tags (values after a scaling update) *)
+Definition kkt_matrix_v {T} (val : tag -> T) (P A : @csc T) (shapes : list shape) (tri : triangle) : @csc T :=
+  let N := kdim P A shapes in
+  mkCsc N N (map (map (fun e => (erow e, val (etag e)))) (kcols N (entries P A shapes tri))).
+
+(** dense meaning of the intended matrix: the entry stored at a position is the value of its
+    tag; positions without a stored entry read 0 *)
+Definition stmt_kkt_get_entry : Prop :=
+  forall T (O : Ops T) (val : tag -> T) (P A : @csc T) (shapes : list shape) (tri : triangle),
+    Laws O -> wf_input P A shapes ->
+    forall e, In e (entries P A shapes tri) ->
+      get O (kkt_matrix_v val P A shapes tri) (erow e) (ecol e) = val (etag e).
+Definition stmt_kkt_get_none : Prop :=
+  forall T (O : Ops T) (val : tag -> T) (P A : @csc T) (shapes : list shape) (tri : triangle),
+    Laws O -> wf_input P A shapes ->
+    forall i j, (forall e, In e (entries P A shapes tri) -> ~ (erow e = i /\ ecol e = j)) ->
+      get O (kkt_matrix_v val P A shapes tri) i j = zero O.
+
+
+(** kkt_spec_dense: the assembled (Triu) matrix means the upper triangle of [P A'; A 0]; every other
+    stored position (structural diagonal, Hs blocks, expansion rows/columns) reads 0 *)
+Definition stmt_kkt_spec_dense : Prop :=
+  forall T (O : Ops T) (P A : @csc T) (shapes : list shape), Laws O -> wf_input P A shapes ->
+    forall i j,
+      get O (kkt_matrix O P A shapes Triu) i j
+      = if i <=? j then
+          if j <? nc P then get O P i j
+          else if (i <? nc P) && (j <? nc P + nr A) then get O A (j - nc P) i
+          else zero O
+        else zero O.
+(** the lower-triangular layout is its transpose *)
+Definition stmt_kkt_spec_dense_tril : Prop :=
+  forall T (O : Ops T) (val : tag -> T) (P A : @csc T) (shapes : list shape), Laws O -> wf_input P A shapes ->
+    forall i j, get O (kkt_matrix_v val P A shapes Tril) i j = get O (kkt_matrix_v val P A shapes Triu) j i.
+
+
+(** ** value updates through the maps *)
+(** frame: [write_vals] / [scale_vals] touch exactly the listed positions *)
+Definition stmt_update_values_frame : Prop :=
+  forall T (a : list T) (index : list nat) (values : list T) (d : T),
+    length (write_vals a index values) = length a
+    /\ (forall i, ~ In i (firstn (length values) index) -> nth i (write_vals a index values) d = nth i a d)
+    /\ (NoDup index -> Forall (fun i => i < length a) index -> length values = length index ->
+        forall j, j < length index -> nth (nth j index 0) (write_vals a index values) d = nth j values d).
+Definition stmt_scale_values_frame : Prop :=
+  forall T (O : Ops T) (a : list T) (index : list nat) (c : T),
+    length (scale_vals O a index c) = length a
+    /\ (forall i, ~ In i index -> nth i (scale_vals O a index c) (zero O) = nth i a (zero O))
+    /\ (NoDup index -> forall i, In i index -> i < length a ->
+        nth i (scale_vals O a index c) (zero O) = mul O (nth i a (zero O)) c).
+
+(** same sparsity pattern (sizes and stored rows per column) *)
+Definition same_pattern {T} (M M' : @csc T) : Prop :=
+  nr M = nr M' /\ nc M = nc M' /\ map (map fst) (cols M) = map (map fst) (cols M').
+
+(** re-assembling with new data of the same pattern = updating the values of the old assembly
+    through the maps P and A (what update_P / update_A do); structure and maps do not change *)
+Definition stmt_update_data_through_maps : Prop :=
+  forall T (O : Ops T) (P A P' A' : @csc T) (shapes : list shape) (tri : triangle),
+    wf_input P A shapes -> same_pattern P P' -> same_pattern A A' ->
+    let K := encode (kkt_matrix O P A shapes tri) in
+    let K' := encode (kkt_matrix O P' A' shapes tri) in
+    let mp := kkt_maps P A shapes tri in
+    kkt_maps P' A' shapes tri = mp
+    /\ rcolptr K' = rcolptr K /\ rrowval K' = rrowval K
+    /\ rnzval K' = write_vals (write_vals (rnzval K) (mP mp) (vals P')) (mA mp) (vals A').
+
+
+(** ** the sign vector recorded at assembly: for well-formed inputs and both triangles, the
+    _fill_signs of the maps returned by [assemble] is (+1)^n (-1)^m followed by (-1,+1) per SOC
+    expansion and (-1,-1,+1) per generalised-power expansion, in cone order *)
+Definition stmt_dsigns_of_assemble : Prop :=
+  forall T (O : Ops T) (P A : @csc T) (shapes : list shape) (tri : triangle), wf_input P A shapes ->
+    fill_signs (nr A + nc P + sum_by pdim shapes) (nr A) (nc P)
+               (mSp (snd (assemble O (encode P) (encode A) shapes tri)))
+    = signs_spec (nc P) (nr A) shapes.
+
+(** ** the Schur complement of the sparse SOC expansion, read off the dense meaning of the
+    intended matrix *)
+(** symmetric read of an upper-triangular stored matrix *)
+Definition sym_get (K : @csc R) (i j : nat) : R :=
+  if i <=? j then get OpsR K i j else get OpsR K j i.
+
+(** the chain closed for the sparse second-order cone: in the intended (Triu) matrix carrying the
+    values that [update] writes for a cone SocSparse d sitting after [pre] and before [post], the
+    cone's block is diagonal, its auxiliary 2x2 block is diagonal, and eliminating the two
+    auxiliary variables gives -eta^2 (2ww' - J) *)
+Definition stmt_soc_schur_dense : Prop :=
+  forall (P A : @csc R) (pre post : list shape) (d : nat) (val : tag -> R) (eta w1sq : R) (w : nat -> R),
+    let shapes := pre ++ SocSparse d :: post in
+    let c := length pre in
+    let o := nc P + sum_by numel pre in
+    let pcol := nc P + nr A + sum_by pdim pre in
+    wf_input P A shapes ->
+    eta <> 0%R -> (0 <= w1sq)%R -> w 0 = R_sqrt.sqrt (1 + w1sq) ->
+    (forall t, t < d -> val (THs c t) = soc_blockA eta w w1sq t t) ->
+    (forall t, t < d -> val (TV c t) = soc_blockB eta w w1sq t 0) ->
+    (forall t, t < d -> val (TU c t) = soc_blockB eta w w1sq t 1) ->
+    val (TD c 0) = (- (eta * eta))%R -> val (TD c 1) = (eta * eta)%R ->
+    let K := kkt_matrix_v val P A shapes Triu in
+    sym_get K pcol (pcol + 1) = 0%R
+    /\ forall a b, a < d -> b < d ->
+         schur_elim (fun x y => sym_get K (o + x) (o + y)) (fun x k => sym_get K (o + x) (pcol + k))
+                    [sym_get K pcol pcol; sym_get K (pcol + 1) (pcol + 1)] a b
+         = (- (eta * eta * (2 * w a * w b
+                            - (if Nat.eqb a b then match a with 0 => 1 | _ => -1 end else 0))))%R.
+
